@@ -145,6 +145,42 @@ fn same_on_one_object(law: &str, reference: &View, s: &Spec, columns_first: bool
       }
     }
   }
+  // the chunk stream asked twice with the same options (the second answer comes from the caches): the
+  // text and the end are those of the reference whatever path produced the chunks
+  let (_, end) = positions(&reference.text);
+  for round in ["first", "second"] {
+    let st = guard(|| crate::observe::stream(&*obj, &opts(true, false))).map_err(|p| format!("{law}: {round} stream on a shared object: {p}"))?;
+    let t = st.text();
+    if t != reference.text || st.info != end {
+      return Err(format!(
+        "{law}: {round} chunk stream (columns=true) of one object reassembles to {t:?} ending at {:?}; the reference text is {:?} ending at {:?}",
+        st.info, reference.text, end
+      ));
+    }
+  }
+  Ok(())
+}
+
+/// one object streamed and mapped twice with the same options: text, end and "is there a map" only
+fn same_on_one_object_text_only(law: &str, reference: &View, s: &Spec) -> Result<(), String> {
+  let obj = build(s);
+  let (_, end) = positions(&reference.text);
+  for round in ["first", "second", "third"] {
+    let st = guard(|| crate::observe::stream(&*obj, &opts(true, false))).map_err(|p| format!("{law}: {round} stream on one object: {p}"))?;
+    let t = st.text();
+    if t != reference.text || st.info != end {
+      return Err(format!("{law}: {round} chunk stream (columns=true) of one object reassembles to {t:?} ending at {:?}; the reference text is {:?} ending at {:?}", st.info, reference.text, end));
+    }
+    let m = guard(|| obj.map(&opts(true, false))).map_err(|p| format!("{law}: {round} map() on one object: {p}"))?;
+    let attr = attr_from_map(m.as_ref(), &reference.text, true)?;
+    for i in 0..reference.text.len() {
+      // file and line of every byte (the column may be refined by the cut, see C06)
+      let (g, w) = (attr[i].as_ref().map(|a| (a.0.clone(), a.2)), reference.map_attr[1][i].as_ref().map(|a| (a.0.clone(), a.2)));
+      if g != w {
+        return Err(format!("{law}: {round} map() of one object attributes byte {i} of {:?} to {g:?}, the reference to {w:?}", reference.text));
+      }
+    }
+  }
   Ok(())
 }
 
@@ -207,6 +243,15 @@ impl Prop for C13 {
     let wrapped = Spec::Replace { inner: Box::new(cc(0, vec![Spec::Raw(String::new()), Spec::Cached(Box::new(a.clone()))])), repls: vec![] };
     same_on_one_object("ReplaceSource([Raw(''), Cached(a)], []) == a", &va, &wrapped, true)?;
     same_on_one_object("Cached(Cached(a)) == a", &va, &Spec::Cached(Box::new(Spec::Cached(Box::new(a.clone())))), true)?;
+    if !a.has_sms() {
+      // (with a map-driven leaf beneath, a warm CachedSource under a cutting ReplaceSource may refine
+      // columns differently: C13 compares such a tree only cold; everything else about it is C10's)
+      let ins = Spec::Replace {
+        inner: Box::new(Spec::Cached(Box::new(a.clone()))),
+        repls: vec![Repl { start: 0, end: 0, content: String::new(), name: None, enforce: 1 }],
+      };
+      same_on_one_object_text_only("ReplaceSource(Cached(a), one empty insertion) == a", &va, &ins)?;
+    }
     same("boxed(a) == a", &va, &view(&Spec::Boxed(Box::new(a.clone())))?, false)?;
     // only empty replacements: everything equal, the column may be refined (see C06)
     let t = model_text(&a);
